@@ -68,6 +68,12 @@ func c14Run(c *lib.Ctx, scaleDown bool) {
 		}
 	})
 	defer vhook.Set(nil)
+	if !scaleDown && c.R.Intn(4) == 0 {
+		// a memtable so small that every write rotates it: at an idle moment an operator has flushed everything it
+		// has written (empty memtable, the WAL's entries are all in tables)
+		x.tun.MemTableSize, x.tun.MaxWALSize = 40, 600
+		c.Feat("cases_with_fully_flushed_operators", 1)
+	}
 	if scaleDown {
 		// every operator flushes several tables before the first checkpoint; few compactions, so that the inherited
 		// tables stay referenced for a while
@@ -139,6 +145,9 @@ func c14Run(c *lib.Ctx, scaleDown bool) {
 	switch mode {
 	case 0: // idle
 		x.waitCaughtUp()
+		if r.Intn(2) == 0 {
+			lib.DKVIdle(2 * time.Second) // also the operators' flushes and compactions have finished
+		}
 		x.logf("savepoint requested (idle)")
 		spID, err = x.requestSavepoint()
 	case 1: // mid flow
